@@ -3,7 +3,7 @@
 import json
 import os
 
-from core import (Infra, build_harness, count_traces, trace_stats, execute, generate, model_check,
+from core import (NCPU, Infra, build_harness, count_traces, trace_stats, execute, generate, model_check,
                   trace_events, validate, wrap, VERIF)
 import findings as F
 
@@ -399,6 +399,9 @@ def check_C09(ctx):
                          weight=w, maxedits=4, threshold=2, interval=2, guards=["KF-ARRAYSET-GC-LEAK"], **extra))
     fams.append(dict(name="enc-undo-arr", alphabet="OpsArrNoMove", clients="Seq2", editors=E2, feat='{"idle", "undo"}', maxundo=3, maxedits=3, weight=4, **ARR))
     viols = sim_families(ctx, fams, C09_TAGS, n)
+    # merges, splits, split tickets, merged-from: the tree catalogue's changes and documents through the same round trips
+    tv, _ = tree_catalogue(ctx, 4 if quick else 1, {"WireTransparent", "SnapshotBytesTransparent", "LogReplayable"})
+    viols += tv
     fresh, known = split_known(ctx, viols)
     return "translation_validation", fresh, known, dict(mc_cov(ctx), programs=ctx.counters.get("traces_validated", 0),
             disagreements_checked=ctx.counters.get("trace_events_validated", 0)), [
@@ -594,7 +597,63 @@ def check_C20(ctx):
         "replayed against the real mongo.ChangeStore; pkg/cache LRU (with expiry) is not covered"]
 
 
-CHECKS = {"C20": check_C20, "C05": check_C05, "C16": check_C16, "C07": check_C07, "C09": check_C09, "C14": check_C14, "C18": check_C18, "C01": check_C01, "C02": check_C02, "C03": check_C03, "C04": check_C04, "C06": check_C06, "C08": check_C08,
+C19_TAGS = {"Converged", "CloneEqRoot", "RefEquiv", "BuildEquiv", "BuildNeverFails", "SyncNeverFails", "LogReplayable", "EditNeverFails"}
+
+
+def check_C19(ctx):
+    build_harness(ctx)
+    quick = ctx.tier == "quick"
+    viols, cells = tree_catalogue(ctx, 2 if quick else 1, C19_TAGS)
+    fresh, known = split_known(ctx, viols)
+    return "exploration", fresh, known, dict(mc_cov(ctx), evaluations=ctx.counters.get("behaviours_executed", 0),
+            distinct_nontrivial=ctx.counters.get("behaviours_executed", 0), exhaustive=not quick,
+            rule="upstream's five tree concurrency matrices (%d cells) x 2 sync orders x {passive third client, late snapshot-fed third client}; "
+                 "every execution is distinct and concurrent by construction; quick runs every 2nd cell (offset by seed), thorough the whole catalogue" % cells), [
+        "no explicit TLA+ model of the tree merge algorithm: decided through Converged / CloneEqRoot / RefEquiv evaluated by TLC on the traces"]
+
+
+def tree_catalogue(ctx, every, tags):
+    import subprocess
+    d = ctx.sub("tree")
+    n = NCPU
+    procs = []
+    for i in range(n):
+        out = os.path.join(d, "trace-%d.ndjson" % i)
+        cmd = [ctx.yvh, "tree", "-out", out, "-shard", str(i), "-nshards", str(n), "-every", str(every), "-offset", str(ctx.seed % every)]
+        procs.append((out, subprocess.Popen(cmd, stdout=subprocess.PIPE, stderr=subprocess.PIPE, text=True)))
+    traces = []
+    cells = 0
+    for out, p in procs:
+        so, se = p.communicate(timeout=3000)
+        if p.returncode != 0:
+            raise Infra("tree driver failed: " + se[-3000:])
+        traces.append(out)
+        m = __import__("re").search(r"executed=(\d+).*cells=(\d+)", so)
+        if m:
+            ctx.count("behaviours_executed", int(m.group(1)))
+            cells = int(m.group(2))
+    viols = []
+    raw = validate(ctx, traces)
+    ctx.count("traces_validated", count_traces(traces))
+    trace_stats(ctx, traces)
+    seen = set()
+    for v in sorted(raw, key=lambda v: (v["tid"], v["line"])):
+        ctx.count("raw_violations_" + v["tag"])
+        if v["tag"] not in tags or (v["tid"], v["tag"]) in seen:
+            continue
+        seen.add((v["tid"], v["tag"]))
+        if v["tag"] == "SnapshotBytesTransparent" and __import__("re").match(r"^concurrently-split-edit-test/.*/split-\d/remove-style#", v["tid"]) \
+                and any(f["id"] == "KF-SNAPSHOT-ATTR-TOMBSTONE" for f in F.open_findings(ctx.prop)):
+            ctx.count("attributed_KF-SNAPSHOT-ATTR-TOMBSTONE")
+            ctx.attributed["KF-SNAPSHOT-ATTR-TOMBSTONE"] = "snapshot bytes drop the removed-attribute tombstone of a split tree element (cells split-N x remove-style)"
+            continue
+        # the replay file names the cell: <matrix>/<range>/<op1>/<op2>#o<order>-<variant>
+        viols.append({"property": "C19", "tag": v["tag"], "family": "tree-catalogue", "cell": v["tid"], "behaviour": None, "errors": [], "seed": ctx.seed})
+    ctx.samples.append({"family": "tree-catalogue", "cells": cells, "example_cell": raw[0]["tid"] if raw else "concurrently-edit-edit-test/intersect-element/insertTextFront/insertTextFront#o0-passive"})
+    return viols, cells
+
+
+CHECKS = {"C19": check_C19, "C20": check_C20, "C05": check_C05, "C16": check_C16, "C07": check_C07, "C09": check_C09, "C14": check_C14, "C18": check_C18, "C01": check_C01, "C02": check_C02, "C03": check_C03, "C04": check_C04, "C06": check_C06, "C08": check_C08,
           "C10": check_C10, "C11": check_C11, "C12": check_C12, "C15": check_C15}
 
 
